@@ -170,6 +170,24 @@ def check_main_loop(ctx, num=3):
         ok = n is not None and sm.every_iteration(n) and g.dominates((ex[0] if src != newp else wl[0]), n)
         ctx.ob(num, "K3", f"the counter of {what} grows by len(this tick's list) in every tick", ok, f, n or lp, construct=f"counter += len({src})",
                detail=stmt_text(n) if n is not None else f"no `+= len({src})` at loop level")
+    # every counter starts at zero before the first tick
+    def _starts_at_zero(name: str):
+        inits = [n for n in own_nodes(f.node) if isinstance(n, (ast.Assign, ast.AnnAssign)) and n.value is not None and not any(a_ is lp for a_ in _anc(n))
+                 and any(norm.is_name(t, name) for t in (n.targets if isinstance(n, ast.Assign) else [n.target]))]
+        ok_ = len(inits) == 1 and isinstance(inits[0].value, ast.Constant) and inits[0].value.value == 0 and not isinstance(inits[0].value.value, bool) and g.dominates(inits[0], lp)
+        return ok_, inits
+    for src, n in counters.items():
+        ok0, inits = _starts_at_zero(n.target.id)
+        ctx.ob(num, "K5", f"the counter `{n.target.id}` starts at 0 before the first tick", ok0, f, inits[0] if inits else n, construct=f"{n.target.id} = 0", detail=f"{[stmt_text(i) for i in inits]}")
+    for dname, zero in ((arrivals, 0), (getattr(sm, "lat_list", None), [])):
+        if not dname:
+            continue
+        dd = [n for n in own_nodes(f.node) if isinstance(n, (ast.Assign, ast.AnnAssign)) and n.value is not None and not any(a_ is lp for a_ in _anc(n))
+              and any(norm.is_name(t, dname) for t in (n.targets if isinstance(n, ast.Assign) else [n.target]))]
+        okd = len(dd) == 1 and isinstance(dd[0].value, ast.Dict) and len(dd[0].value.keys) == 3 and {norm.enum_member(k, "Priority") for k in dd[0].value.keys} == {"QUERY", "INTERACTIVE", "BATCH_PIPELINE"} \
+            and all((isinstance(v, ast.Constant) and v.value == 0 and not isinstance(v.value, bool)) if zero == 0 else (isinstance(v, ast.List) and not v.elts) for v in dd[0].value.values)
+        ctx.ob(num, "K5", f"the per-class table `{dname}` starts with {'0' if zero == 0 else 'an empty list'} for each of the three priority classes", okd, f, dd[0] if dd else lp,
+               construct=f"{dname} initial value", detail=f"{[stmt_text(x)[:120] for x in dd]}")
     fexp = f"[r for r in {resv} if r.failed()]"
     fcnt = None
     for k, n in counters.items():
@@ -493,8 +511,11 @@ def check_executor_aggregates(ctx, num=7):
                     term = f"self.pools[{iv}].{attr}" if norm.U(lp.iter) != "self.pools" else f"{iv}.{attr}"
                     val = ups[0].value if isinstance(ups[0], ast.AugAssign) else ups[0].value.args[0]
                     form = (isinstance(ups[0], ast.AugAssign) and isinstance(ups[0].op, ast.Add)) if op == "sum" else (isinstance(ups[0], ast.Expr) and ups[0].value.func.attr == "extend")
-                    ok = allp and norm.U(val) == term and form
-                    d = f"loop {stmt_text(lp)}; update {stmt_text(ups[0])}"
+                    inits = [n for n in own_nodes(f.node) if isinstance(n, ast.Assign) and len(n.targets) == 1 and norm.is_name(n.targets[0], acc)]
+                    zero = len(inits) == 1 and ((op == "sum" and isinstance(inits[0].value, ast.Constant) and inits[0].value.value == 0 and not isinstance(inits[0].value.value, bool))
+                                               or (op == "concat" and isinstance(inits[0].value, ast.List) and not inits[0].value.elts)) and g.dominates(inits[0], lp)
+                    ok = allp and norm.U(val) == term and form and zero
+                    d = f"loop {stmt_text(lp)}; update {stmt_text(ups[0])}; accumulator starts at {'0' if op == 'sum' else '[]'}: {zero}"
         elif len(rs) == 1 and isinstance(rs[0].value, ast.Call) and norm.call_name(rs[0].value) == "sum" and op == "sum":
             a0 = rs[0].value.args[0]
             if isinstance(a0, (ast.GeneratorExp, ast.ListComp)) and len(a0.generators) == 1 and not a0.generators[0].ifs and isinstance(a0.generators[0].target, ast.Name):
@@ -508,6 +529,13 @@ def check_executor_aggregates(ctx, num=7):
                 src = norm.U(g1.iter)
                 ok = (src == "self.pools" and norm.U(g2.iter) == f"{iv}.{attr}") or (src in ("range(self.num_pools)", "range(len(self.pools))") and norm.U(g2.iter) == f"self.pools[{iv}].{attr}")
         ctx.ob(num, "K6", f"Executor.{meth}() aggregates {attr} over all pools", ok, f, rs[0] if rs else f.node, detail=d)
+    # the per-pool statistics start empty
+    ri = P.fn(RP, "ResourcePool.__init__")
+    for attr, zero in (("num_completed", 0), ("container_tick_times", [])):
+        st = [n for n in own_nodes(ri.node) if isinstance(n, ast.Assign) and any(self_attr(t, attr) for t in n.targets)]
+        ok0 = len(st) == 1 and ((zero == 0 and isinstance(st[0].value, ast.Constant) and st[0].value.value == 0 and not isinstance(st[0].value.value, bool))
+                                or (zero == [] and isinstance(st[0].value, ast.List) and not st[0].value.elts))
+        ctx.ob(num, "K5", f"a new pool starts with {attr} = {zero!r}", ok0, ri, st[0] if st else ri.node, construct=f"self.{attr} = {zero!r}", detail=f"{[stmt_text(x) for x in st]}")
     # tick times recorded once per ending container
     pa = poolmod.pool_analysis(P)
     apps = [c for c in calls_named(pa.f, "append") if isinstance(c.func, ast.Attribute) and self_attr(c.func.value, "container_tick_times")]
@@ -520,6 +548,11 @@ def check_executor_aggregates(ctx, num=7):
 def run(ctx):
     check_write_once(ctx, 1)
     check_formulas(ctx, 2)
+    # "successful iff COMPLETED count == number of operators" needs the counts to mirror the per-operator states: established at
+    # construction (C02#3), preserved by transition() (C02#2)
+    from . import c02
+    c02.check_counts_init(ctx, 2)
+    c02.check_transition_fn(ctx, 2)
     sm, exc = check_main_loop(ctx, 3)
     sm2 = check_sweep(ctx, sm, exc, 4)
     check_tail(ctx, sm, 5)
@@ -531,3 +564,13 @@ def run(ctx):
     from . import c05, c08
     sh = c05.check_plan(c08._Renumber(ctx, {1: 8, 2: 8, 5: 8, 6: 8, 7: 8}))
     c05.check_tick_body(c08._Renumber(ctx, {4: 8, 5: 8, 6: 8, 7: 8}), sh)
+    c05.check_tick_method(ctx, 8)       # the tick times that enter the p99 statistic are counted once per advance
+
+
+def _anc(n):
+    out = []
+    p_ = parent(n)
+    while p_ is not None:
+        out.append(p_)
+        p_ = parent(p_)
+    return out
